@@ -1,9 +1,132 @@
-(* C20 property theorems: statements only, each closed by `exact`. *)
+(* C20 - handle database: the property theorems.  Statements only; each is closed by `exact`.
+   The model (HdbModel.v) transcribes lib/hdb.c; `run hdb_init ops` is the state after an
+   arbitrary history `ops` of create/get/put/destroy/refcount/iterate calls with arbitrary
+   (issued, stale, never-issued, no-check) handle values. *)
 From Coq Require Import ZArith List.
-Require Import Verif.HdbModel Verif.HdbProofs.
+Require Import Verif.gen.Consts_hdb Verif.HdbModel Verif.HdbConvert Verif.HdbProofs Verif.HdbProofs2 Verif.HdbIter.
 Import ListNotations.
 Local Open Scope Z_scope.
 
+(* side conditions on constants regenerated from /repo: memset(0) means EMPTY, states distinct, 64-bit handle *)
+Theorem C20_consts_ok :
+  HDB_STATE_EMPTY = 0 /\ HDB_STATE_ACTIVE <> HDB_STATE_EMPTY /\ HDB_STATE_PENDINGREMOVAL <> HDB_STATE_EMPTY /\
+  HDB_STATE_PENDINGREMOVAL <> HDB_STATE_ACTIVE /\ HDB_SIZEOF_HANDLE_T = 8 /\ HDB_SIZEOF_CHECK = 4.
+Proof. exact (conj st_empty_zero (conj st_active_ne_empty (conj st_pending_ne_empty (conj st_pending_ne_active
+              (conj (proj1 handle_is_64_bits) (proj1 (proj2 handle_is_64_bits))))))). Qed.
+Print Assumptions C20_consts_ok.
+
+(* representation invariant in every reachable state: live slots have count >= 1, one slot per object,
+   no live object has been destructed, no object destructed twice *)
 Theorem C20_invariant_all_histories : forall ops, Inv (fst (run hdb_init ops)).
 Proof. exact inv_run_init. Qed.
 Print Assumptions C20_invariant_all_histories.
+
+(* the destructor runs at most once per object, over every history *)
+Theorem C20_destructor_at_most_once : forall ops, NoDup (dlog (fst (run hdb_init ops))).
+Proof. exact dlog_nodup_all_histories. Qed.
+Print Assumptions C20_destructor_at_most_once.
+
+(* ... and exactly at the put/destroy that takes the count from 1 to 0, never otherwise (any state, any op) *)
+Theorem C20_destructor_exactly_at_zero : forall d o,
+  dlog (fst (step d o)) = match expected_dtor d o with Some x => x :: dlog d | None => dlog d end.
+Proof. exact dtor_exact. Qed.
+Print Assumptions C20_destructor_exactly_at_zero.
+
+(* count of object x after any history = (1 for its creation + gets and iterator visits that returned x)
+   - (puts and destroys that resolved to x) *)
+Theorem C20_refcount_equation : forall ops x,
+  refs_in (slots (fst (run hdb_init ops))) x = net hdb_init ops x.
+Proof. exact refcount_equation_init. Qed.
+Print Assumptions C20_refcount_equation.
+
+(* ... and that number is what refcount_get reports for any handle resolving to x *)
+Theorem C20_refcount_reported : forall d h i s,
+  Inv d -> lookup d h = Some (i, s) -> do_refcount d h = refs_in (slots d) (s_inst s).
+Proof. exact refcount_reported. Qed.
+Print Assumptions C20_refcount_reported.
+
+(* the last put (or destroy) makes the handle dead ... *)
+Theorem C20_last_put_kills : forall h d i s,
+  lookup d h = Some (i, s) -> s_ref s = 1 -> check_of h <> NOCHECK ->
+  dead_for h (fst (do_put d h)) /\ dead_for h (fst (do_destroy d h)).
+Proof. exact last_put_kills. Qed.
+Print Assumptions C20_last_put_kills.
+
+(* ... and a dead handle value (stale, or never issued) - and hence every copy of it - is refused by
+   get/put/destroy/refcount_get with -EBADF and no state change, for ever, also after its slot is reused,
+   provided no later create draws the same check word (freshness of random(), the stated hypothesis) *)
+Theorem C20_stale_rejected_forever : forall ops h d,
+  dead_for h d -> (forall o, In o ops -> o <> Create (check_of h)) ->
+  dead_for h (fst (run d ops)) /\ Forall (fun r => r = ORes (- HDB_EBADF) 0) (outs_on h d ops).
+Proof. exact stale_rejected_forever. Qed.
+Print Assumptions C20_stale_rejected_forever.
+
+Theorem C20_stale_op_changes_nothing : forall h d o,
+  dead_for h d -> op_on h o -> step d o = (d, ORes (- HDB_EBADF) 0).
+Proof. exact stale_rejected_now. Qed.
+Print Assumptions C20_stale_op_changes_nothing.
+
+(* a handle resolves to the object it was created for until that object's destructor has run *)
+Theorem C20_create_owns : forall d chk d' h,
+  Inv d -> 0 <= chk < two31 -> do_create d chk = (d', ORes 0 h) -> owns d' h (next_inst d).
+Proof. exact create_owns. Qed.
+Print Assumptions C20_create_owns.
+
+Theorem C20_owner_survives_every_step : forall d h x o,
+  Inv d -> owns d h x -> owns (fst (step d o)) h x \/ In x (dlog (fst (step d o))).
+Proof. exact owns_step. Qed.
+Print Assumptions C20_owner_survives_every_step.
+
+(* get on the owner: the object while ACTIVE; refused once destroy was called (PENDINGREMOVAL) *)
+Theorem C20_get_resolves_until_destroy : forall d h x,
+  owns d h x ->
+  forall s, nth_error (slots d) (Z.to_nat (idx_of h)) = Some s ->
+  (s_state s = HDB_STATE_ACTIVE -> snd (fst (do_get d h)) = 0 /\ snd (do_get d h) = x) /\
+  (s_state s <> HDB_STATE_ACTIVE -> do_get d h = (d, - HDB_EBADF, 0)).
+Proof. exact owns_get. Qed.
+Print Assumptions C20_get_resolves_until_destroy.
+
+(* iteration (reset, then next until it fails) returns precisely the objects that have not been destroyed
+   (slots in state ACTIVE), each once, in slot order - after every history whose check words are in random()'s range *)
+Theorem C20_iteration_visits_exactly_undestroyed : forall ops,
+  Forall create_in_range ops ->
+  let d := fst (run hdb_init ops) in
+  iterate (S (length (slots d))) (fst (step d IterReset)) = undestroyed d.
+Proof. exact iteration_complete_all_histories. Qed.
+Print Assumptions C20_iteration_visits_exactly_undestroyed.
+
+
+(* qb_hdb_base_convert / qb_hdb_nocheck_convert: the no-check form of a handle names the same slot and is
+   validated without comparing the check word, so it resolves to whatever object lives in that slot now -
+   which is why the stale-handle theorems above require check_of h <> NOCHECK. *)
+Theorem C20_nocheck_form_same_slot : forall c i, 0 <= i < two31 ->
+  idx_of (nocheck_convert (base_convert (mk_handle c i))) = idx_of (mk_handle c i) /\
+  check_of (nocheck_convert (base_convert (mk_handle c i))) = NOCHECK.
+Proof. exact nocheck_of_base_same_slot. Qed.
+Print Assumptions C20_nocheck_form_same_slot.
+
+Theorem C20_nocheck_form_resolves_current_object : forall d i s,
+  0 <= i < handle_count d -> i < two31 ->
+  nth_error (slots d) (Z.to_nat i) = Some s -> s_state s <> HDB_STATE_EMPTY ->
+  lookup d (nocheck_convert i) = Some (i, s).
+Proof. exact nocheck_lookup. Qed.
+Print Assumptions C20_nocheck_form_resolves_current_object.
+
+Example C20_ex_convert :
+  base_convert 0x0000003d00000007 = 7 /\ nocheck_convert 7 = 0xffffffff00000007 /\
+  nocheck_convert (two32 + 7) = 0xffffffff00000007.
+Proof. exact ex_convert. Qed.
+
+(* the repaired defect, kept as a refutation of the pre-fix validation (see known_findings.json) *)
+Theorem C20_unfixed_validation_refuted :
+  exists ops h, dead_for h (fst (run hdb_init ops)) /\ lookup_unfixed (fst (run hdb_init ops)) h <> None.
+Proof. exact unfixed_refuted. Qed.
+Print Assumptions C20_unfixed_validation_refuted.
+
+(* non-vacuity: concrete histories meeting the hypotheses above *)
+Example C20_ex_stale_is_dead : dead_for (mk_handle 11 0) (fst (run hdb_init ex_ops)).
+Proof. exact ex_stale_is_dead. Qed.
+Example C20_ex_owner : owns (fst (run hdb_init ex_ops)) (mk_handle 13 0) 3 /\ owns (fst (run hdb_init ex_ops)) (mk_handle 12 1) 2.
+Proof. exact ex_owner. Qed.
+Example C20_ex_iteration : iterate 10 (fst (step (fst (run hdb_init ex_ops)) IterReset)) = [3; 2].
+Proof. exact ex_iteration. Qed.
